@@ -103,6 +103,23 @@ func main() {
 		m2, _ := dv.NewVersion(m1)
 		reads("m2 (new head)", m2)
 		reads("m1 (static)", m1)
+	case "m": // master head after a restart when the committed leaf has only a branch child
+		root2, _ := dv.NewRepo("r2")
+		dv.NewInstance(root2, "neuronjson", "nj", nil)
+		post(root2, "10", `{"bodyid":10,"a":1}`)
+		dv.Commit(root2)
+		b1, _ := dv.Branch(root2, "b")
+		_, v, err := datastore.GetBranchHead(dvid.UUID(root2), "master")
+		fmt.Println("before reopen: master head", v, err)
+		datastore.CloseReopenTest()
+		_, v, err = datastore.GetBranchHead(dvid.UUID(root2), "master")
+		fmt.Println("after reopen: master head", v, err)
+		_, v, err = datastore.GetBranchHead(dvid.UUID(root2), "b")
+		fmt.Println("after reopen: b head", v, err, b1[:6])
+		c, r := dv.NewVersion(root2)
+		fmt.Println("newversion", r.Status)
+		post(c, "20", `{"bodyid":20,"a":1}`)
+		reads("child", c)
 	case "e": // unknown static uuid
 		setInmemory(root, []string{"deadbeef"})
 		datastore.CloseReopenTest()
